@@ -479,7 +479,7 @@ func oracleConfig(p *PRNG, tier string) Config {
 func init() {
 	Register(&PropSpec{
 		ID: "C12", Level: "exploration",
-		Rule: "case = 1-6 validators with skewed power splits (34/33/33, 67/33, 1/1/1/97, equal, ...), 1-3 feeders with different intervals (>= 2 x max nonce) and max nonce 1-4; per block every operator submits 0..max+1 messages per feeder with agreeing, conflicting, duplicate, late/early (based block +-1, +-interval), other source rounds and future timestamps, in shuffled order, with replayed bytes, validator-set changes at epoch ends, restarts and CheckTx interleavings; round model from the statement (a round opens per interval; closes exactly once: by a final price only with > 2/3 reporting and > 2/3 agreeing power, else by carrying the previous price forward at window end or validator-set change; ids advance by exactly one; stored prices immutable; retention bound) compared after every tx and block; non-trivial = >= 2 rounds finalised by price AND >= 2 carried forward AND conflicting values seen in a round",
+		Rule: "case = 1-6 validators with skewed power splits (34/33/33, 67/33, 1/1/1/97, equal, ...), 1-3 feeders with different intervals (>= 2 x max nonce) and max nonce 1-4; per block every operator submits 0..max+1 messages per feeder with agreeing, conflicting, duplicate, late/early (based block +-1, +-interval), other source rounds (in a third of the runs half of the rounds spread the reporters over up to nine source rounds, more than one validator may submit, mostly with one value) and future timestamps, in shuffled order, with replayed bytes, validator-set changes at epoch ends, restarts and CheckTx interleavings; round model from the statement (a round opens per interval; closes exactly once: by a final price only with > 2/3 reporting and > 2/3 agreeing power, else by carrying the previous price forward at window end or validator-set change; ids advance by exactly one; stored prices immutable; retention bound) compared after every tx and block; non-trivial = >= 2 rounds finalised by price AND >= 2 carried forward AND conflicting values seen in a round",
 		Assumptions: []string{"a validator counts as reporter of a round iff one of its submissions for that round got DeliverTx code 0 (whether code 0 was deserved is C13's question)", "one deterministic source is configured, so the median of the reporters' values is the agreed value", "validator powers are read from the stored dogfood validator set at the beginning of each block"},
 		QuickRuns:   500, ThoroughRuns: 8000,
 		GenConfig: oracleConfig,
@@ -488,6 +488,7 @@ func init() {
 			if tier == "thorough" {
 				o.MinBlocks, o.MaxBlocks = 40, 140
 			}
+			o.ManySourceRounds = p.Chance(1, 3)
 			return GenOraclePlan(p, cfg, o)
 		},
 		Monitors: func() []Monitor { return []Monitor{&c12Monitor{}} },
